@@ -57,6 +57,15 @@ def run(ctx):
                                                         for l in fn.body)],
   }, required=False))
   # location-independent rules first: an anchored rule that gives up must not mask them
+  from sa import pitfalls
+  ps = ctx.func('chord_symbols_lib:_pitch_class_to_string')
+  if len(ps.node.args.args) == 2:
+    for s_ in pitfalls.sign_only(ps.node, ps.node.args.args[1].arg):
+      ctx.ob('SPELL/alteration-magnitude', ps, s_.node, s_.verdict == pitfalls.OK, s_.why if s_.verdict == pitfalls.OK else
+             s_.why + ' - a double sharp / double flat left by _transpose_pitch_class is spelled with one accidental, so the transposed root or bass is a semitone off',
+             construct='_pitch_class_to_string spells |alteration| accidentals', definite=(s_.verdict == pitfalls.BAD), unknown=s_.why if s_.verdict == pitfalls.UNKNOWN else None)
+  else:
+    ctx.ob('SPELL/alteration-magnitude', ps, ps.node, False, 'signature changed', unknown='cannot classify: _pitch_class_to_string no longer takes (step, alteration)')
   drum_conditions(ctx, fi, 'DRUM/keep-condition')
   drum_total_time(ctx, fi, 'DRUM/total-time')
   operand(ctx, cfi)
